@@ -520,3 +520,127 @@ def _(ctx):
     ctx.record('', PROVED if not bad else FAILED, 'bounded', 0, 'bounded: %d points (tan beta x MZ) with MA == MZ; result == -1.0 at all of them' % n if not bad else
                'tan_alpha at MA == MZ is %r for tan(beta)=%r, MZ=%r (expected -1)' % (bad[0][2], bad[0][0], bad[0][1]),
                model={'_float': {'tb': bad[0][0], 'mz': bad[0][1]}} if bad else None, solver='float interpreter (IEEE doubles)', kind='bounded')
+
+# ------------------------------------------------------------------------------------------------ guards of removable singularities vs the rounding noise floor
+# A guard `|E| < eps` that switches to the analytic limit next to a zero of a denominator only works if eps is ABOVE the rounding noise of E: in the standard model of
+# floating-point arithmetic the computed E is off by at most ~k u mag(E), where mag(E) is E with every addition/subtraction replaced by the sum of the magnitudes
+# (u = 2^-53, k = number of roundings).  If eps is below that noise, the exact coincidence is not recognised and the generic branch divides by a vanishing number.
+# Obligation: for every guard `|E| < c` (c <= 1e-3) on a path of the function, for all admissible arguments near the guard (|E| < 1):  c >= 4 u mag(E).
+U_DBL = Fr(1, 2**53)
+
+def _mag(t):
+    """magnitude bound of a z3 arithmetic term: additions/subtractions add magnitudes, products multiply them, quotients divide by the |denominator|"""
+    if z3.is_rational_value(t) or z3.is_int_value(t):
+        return z3.RealVal(abs(Fr(t.numerator_as_long(), t.denominator_as_long()))) if z3.is_rational_value(t) else z3.RealVal(abs(t.as_long()))
+    k = t.decl().kind()
+    ch = t.children()
+    az = lambda x: z3.If(x >= 0, x, -x)
+    if k in (z3.Z3_OP_ADD, z3.Z3_OP_SUB):
+        r = _mag(ch[0])
+        for c in ch[1:]:
+            r = r + _mag(c)
+        return r
+    if k == z3.Z3_OP_UMINUS:
+        return _mag(ch[0])
+    if k == z3.Z3_OP_MUL:
+        r = _mag(ch[0])
+        for c in ch[1:]:
+            r = r * _mag(c)
+        return r
+    if k == z3.Z3_OP_DIV:
+        return _mag(ch[0]) / az(ch[1])
+    if k == z3.Z3_OP_ITE:
+        return z3.If(ch[0], _mag(ch[1]), _mag(ch[2]))
+    return az(t)
+
+def _abs_guards(pc):
+    """(E, c) for path-condition literals of the form |E| < c / not(|E| < c) with a small constant c"""
+    out = []
+    for lit in pc:
+        t = lit
+        while z3.is_not(t):
+            t = t.arg(0)
+        if not (z3.is_lt(t) or z3.is_le(t) or z3.is_gt(t) or z3.is_ge(t)):
+            continue
+        a, b = t.arg(0), t.arg(1)
+        if z3.is_rational_value(a) and not z3.is_rational_value(b):
+            a, b = b, a                         # constant on the left: c <= |E| etc.
+        if not z3.is_rational_value(b):
+            continue
+        c = Fr(b.numerator_as_long(), b.denominator_as_long())
+        if not (0 < c <= Fr(1, 1000)):
+            continue
+        if z3.is_app(a) and a.decl().kind() == z3.Z3_OP_ITE and a.num_args() == 3:
+            E = a.arg(1)                        # |E| is If(E >= 0, E, -E) (possibly with the comparison rewritten)
+            if not any(z3.eq(E, e0) for e0, _ in out):
+                out.append((E, c))
+    return out
+
+def noise_replay(fn):
+    def rep(model, wd):
+        from gm2v import native
+        import mpmath as mp
+        mp.mp.dps = 40
+        # the REAL f_CSd along paths of xu through both zeros of y = (xu - xd)^2 - 2 (xu + xd) + 1, i.e. xu = (1 -+ sqrt(xd))^2, against the 40-digit value of the definition
+        exe = native.build_scalar_driver(wd, [FF], ['src/gm2_dilog.cpp', 'src/gm2_numerics.cpp'], [('phi_over_y', 'phi_over_y(a[0], a[1])', 2)])
+        calls, want = [], []
+        for xd in (6e-4, 1e-3, 2.5e-5, 1e-2):
+            for sg in (1, -1):
+                for d in (0, 1e-13, -1e-13, 1e-11, -1e-11, 1e-9, -1e-9, 1e-6, -1e-6):
+                    xu0 = (1 + sg * xd ** 0.5) ** 2
+                    xu = xu0 * (1 + d)
+                    calls.append(('phi_over_y', [xu, xd]))
+        vals = native.run_scalar_driver(exe, calls)
+        def ref(xu, xd):
+            xu, xd = mp.mpf(xu), mp.mpf(xd)
+            y = (xu - xd) ** 2 - 2 * (xu + xd) + 1
+            lam = mp.sqrt(y)
+            if abs(y) < mp.mpf(10) ** -25:
+                return None
+            # Davydychev-Tausk Phi(xd, xu, 1) / y  (analytic continuation by mp)
+            xp = (1 + xd - xu - lam) / 2
+            xm = (1 - xd + xu - lam) / 2
+            phi = lam * (2 * mp.log(xp) * mp.log(xm) - mp.log(xd) * mp.log(xu) - 2 * mp.polylog(2, xp) - 2 * mp.polylog(2, xm) + mp.pi ** 2 / 3) if y > 0 else None
+            return None if phi is None else mp.re(phi / y)
+        worst = (0, None)
+        prev = None
+        import math
+        for (nm, (xu, xd)), v in zip(calls, vals):
+            if not math.isfinite(v):
+                worst = (float('inf'), (xu, xd, v))
+                break
+        # continuity: the points of a path must agree to 2% (the function is smooth there)
+        n_per = 9
+        for p0 in range(0, len(vals), n_per):
+            grp = vals[p0:p0 + n_per]
+            base = grp[7]      # d = +1e-6
+            for v, (nm, a_) in zip(grp, calls[p0:p0 + n_per]):
+                if math.isfinite(v) and abs(v - base) > 2e-2 * abs(base) and abs(v - base) / abs(base) > worst[0]:
+                    worst = (abs(v - base) / abs(base), (a_[0], a_[1], v, base))
+        bad = worst[0] > 2e-2       # rounding noise just outside the guard window reaches 0.6% for xd = 2.5e-5 on the unchanged tree; a missed coincidence gives 0, NaN or O(1) jumps
+        return bad, 'phi_over_y along xu -> (1 +- sqrt(xd))^2: worst deviation from the value at relative distance 1e-6: %s' % (worst,)
+    return rep
+
+@obligation('C11.guards_above_noise_floor.phi_over_y', fns=[(FF, 'phi_over_y')], replay=noise_replay('phi_over_y'))
+def _(ctx):
+    """ensures (standard model of floating-point arithmetic, u = 2^-53; not an A-REAL statement): every guard |E| < c with which phi_over_y recognises a zero of its
+    denominator satisfies  c >= 4 u mag(E)  for all 1e-6 <= xd < 1/4 and all xu with |E| < 1 -- the window is wider than the rounding noise of the tested
+    expression, so the exact coincidence m_H+ = m_t +- m_b is recognised and the analytic limit is used there"""
+    xu, xd = ctx.real('xu'), ctx.real('xd')
+    pre = [xu > 0, xd >= Fr(1, 10**6), xd < Fr(1, 4)]
+    stubs = dict(SPECIAL)
+    stubs.pop('phi_over_y', None)
+    it = Interp(ctx.w, mode='sym', stubs=stubs, assumptions=list(pre))
+    ps = it.run_paths(lambda: it.call('phi_over_y', [xu, xd], file=FF), max_paths=100)
+    ctx.merge_rules(it)
+    guards = []
+    for s, r, e in ps:
+        for E, c in _abs_guards(s.pc):
+            if not any(z3.eq(E, g[0]) for g in guards):
+                guards.append((E, c, list(s.axioms)))
+    pins = [{'xu': Fr(1), 'xd': Fr(6, 10**4)}, {'xu': Fr(105, 100), 'xd': Fr(6, 10**4)}, {'xu': Fr(1), 'xd': Fr(1, 10**6)}]
+    for i, (E, c, ax) in enumerate(guards):
+        near = z3.And(E < 1, E > -1)
+        ctx.prove('guard%d' % i, pre + [near] + ax, z3.RealVal(c) >= 4 * to_z3(U_DBL) * _mag(E), check_vacuity=False, tactics=('nlsat', 'default'), pins=pins,
+                  model_vars={'xu': xu, 'xd': xd})
+    ctx.record('guards', PROVED if len(guards) == 2 else FAILED, 'B', 0, '%d guards of the form |E| < c found on the paths (two zeros of y)' % len(guards))
